@@ -39,6 +39,13 @@ VIOLATIONS = [
     ("schema_syntax_error", "SCHEMA:type Query { a: Int", "InvalidGraphqlSyntax"),
     ("queries_syntax_error", "QUERIES:query Q { a ", "InvalidGraphqlSyntax"),
     ("plugin_unknown", {"plugins": ["not_a_module.NoPlugin"]}, "PluginImportError"),
+    # colliding file names (a documented refusal): a configured module / an operation named like a file the package always contains
+    ("enums_module_named_exceptions", {"enums_module_name": "exceptions"}, "ParsingError"),
+    ("inputs_module_named_base_model", {"input_types_module_name": "base_model"}, "ParsingError"),
+    ("client_file_named_enums", {"client_file_name": "enums"}, "ParsingError"),
+    ("fragments_module_named_client", {"fragments_module_name": "client"}, "ParsingError"),
+    ("operation_named_exceptions", "QUERIES:query exceptions { user(id: \"1\") { id } }", "ParsingError"),
+    ("operation_named_async_base_client", "QUERIES:query asyncBaseClient { user(id: \"1\") { id } }", "ParsingError"),
 ]
 
 INVALID_OPS = [
